@@ -40,7 +40,7 @@ def sweep_parallel(n, only):
     for i in range(n):
         w = f"{base}/w{i}"
         sh(f"git -C /repo worktree remove --force {w}/repo; rm -rf {w}; mkdir -p {w}")
-        sh(f"rsync -a --exclude replays {ROOT}/ {w}/verif/")
+        sh(f"rsync -a --exclude replays {ROOT}/ {w}/verif/; rm -f {w}/verif/seeded/RESULTS.md")
         r = sh(f"git -C /repo worktree add --detach {w}/repo HEAD")
         if r.returncode != 0:
             sys.exit(r.stderr)
